@@ -6,9 +6,10 @@
    chosen for each reconnect attempt, the raw outcome of each f(client)).  `run true s0 tr` is a
    strict run of ANY action list, i.e. any interleaving of any number of goroutines with kills,
    failing reconnects and Close at any point; `starts` = lazy or (successful) eager construction. *)
-From Coq Require Import List Arith Bool.
+From Coq Require Import List Arith Bool NArith.
 Import ListNotations.
 From Hy Require Import gen.ParamsC16 model.C16_Reconnect proof.C16_Reconnect model.C16_Split proof.C16_Split.
+From Hy Require Import corr.C16_Corr model.C16_Trace proof.C16_Accept.
 
 (* Census.  In every state of every run (in particular at every quiescent point) every open factory
    socket is the current client's: at most one is open, and every superseded (or never adopted)
@@ -152,3 +153,60 @@ Theorem C16_unlocked_config_refuted :
              closed (base s) = true /\ open_sids (base s) = [0] /\ nnew (base s) = 1).
 Proof. exact split_refuted. Qed.
 Print Assumptions C16_unlocked_config_refuted.
+
+(* ---- The tie: the acceptor that decides whether a recorded boundary log is a trace of the LTS
+   (corr/C16_Corr.v [accepts], which inserts the unobserved sections in a normal form) is SOUND.
+
+   Every accepted log is explained by the weak transition relation of model/C16_Trace.v: each
+   observation is one action of the LTS emitting exactly the recorded boundary events (or a check on
+   the model state at that point), separated by unobserved Enter / Do / Leave actions that emit
+   nothing and, while an rc.Close() is pending, the locked section of a Close that finds no client. *)
+Theorem C16_accepted_log_is_weak_trace : forall l, accepts l = true -> is_trace l.
+Proof. exact accepts_sound. Qed.
+Print Assumptions C16_accepted_log_is_weak_trace.
+
+(* Hence: an accepted log of a constructed client is the visible projection of a strict run of the
+   LTS from a start state (so every theorem above that is quantified over `starts s0` and
+   `run true s0 tr = Some s` holds of it), with at most one Close action per recorded rc.Close(). *)
+Theorem C16_accepted_log_is_run : forall lz evs rest, accepts (OInit lz evs true :: rest) = true ->
+  exists s0 tr s, start_of lz evs s0 /\ starts s0 /\ run true s0 tr = Some s /\
+                  proj s0 tr = erase rest /\ count_close tr <= count_cbegin rest.
+Proof. exact accepted_is_run. Qed.
+Print Assumptions C16_accepted_log_is_run.
+
+(* ... an accepted log of a failed eager construction is one failing reconnect() from the initial
+   state with exactly the recorded events, nothing left open, and nothing after it. *)
+Theorem C16_accepted_failed_start : forall lz evs rest, accepts (OInit lz evs false :: rest) = true ->
+  lz = false /\ rest = [] /\
+  exists f s t, f <> FOk /\ reconnect init0 f = (s, evs, Some t) /\ open_sids s = [].
+Proof. exact accepted_failed_start. Qed.
+Print Assumptions C16_accepted_failed_start.
+
+(* ... at every recorded quiescent point that run is in a quiescent state in which exactly the
+   recorded sockets are open: none, or the current client's only. *)
+Theorem C16_accepted_quiet_point : forall lz evs l1 opens l2,
+  accepts (OInit lz evs true :: l1 ++ OQuiet opens :: l2) = true ->
+  exists s0 tr s, start_of lz evs s0 /\ starts s0 /\ run true s0 tr = Some s /\ proj s0 tr = erase l1 /\
+                  quiescent s = true /\ open_sids s = opens /\
+                  (opens = [] \/ exists c, cur s = Some c /\ opens = [c]).
+Proof. exact accepted_quiet_point. Qed.
+Print Assumptions C16_accepted_quiet_point.
+
+(* ... and the harness monitors, read as predicates on the log alone, hold of every accepted log:
+   census (at most one socket open at every quiescent point) and Close is final (once an rc.Close()
+   has returned: no config evaluation, factory call or connect report, nothing open at a quiescent
+   point, and every call started afterwards returns ClosedError). *)
+Theorem C16_accepted_log_monitors : forall l, accepts l = true ->
+  census_mon l = true /\ close_final_mon false false [] l = true.
+Proof. exact accepted_monitors. Qed.
+Print Assumptions C16_accepted_log_monitors.
+
+(* Completeness of the normal-form search is tested, not proved: the log of EVERY run of the LTS
+   within the bounds of model/C16_Trace.v [complete_bounded] (1-3 goroutines, up to 15 moves, kills,
+   Close calls with the locked section anywhere between begin and return, every fault and outcome)
+   is accepted; more than 5000 logs per bound. *)
+Theorem C16_acceptor_complete_bounded :
+  map (fun r => snd r) complete_bounded = [[]; []; []; []; []] /\
+  forallb (fun r => N.leb 5000 (fst r)) complete_bounded = true.
+Proof. exact acceptor_complete_bounded. Qed.
+Print Assumptions C16_acceptor_complete_bounded.
